@@ -39,6 +39,7 @@ import interp_py as ip
 FR = Fraction
 TOL = FR(1, 10 ** 12)
 COND_MIN = 1e-6
+ABS_EPS = FR(1, 10 ** 24)     # 10 * EPS of vnacal_rfi.c: absolute floor of every interpolated-value comparison
 AMP_MAX = 100.0
 AMP_SKIP = 1e7
 RFI_CONSTS = [None, None, 5]
@@ -67,8 +68,39 @@ def dbl(rng, kind):
     return FR(rng.uniform(-4, 4))
 
 
+def dense_knots(rng, n, kind):
+    """Knot vectors of other densities, all exact binary64 values (so the rational model applies as it stands):
+    hz   narrow band: tens of GHz, neighbours 0.25 .. 4 Hz apart;
+    ulp  neighbours 2 .. 6 units in the last place apart at 1 .. 100 GHz (a double lies between any two);
+    log  wide, logarithmically spaced: 1 kHz .. 100 GHz."""
+    import math
+    if kind == "hz":
+        x = FR(rng.choice([10 ** 9, 10 ** 10, 4 * 10 ** 10, 10 ** 11]) + rng.randint(0, 1000))
+        out = [x]
+        for _ in range(n - 1):
+            x += FR(rng.randint(1, 16), 4)
+            out.append(x)
+    elif kind == "ulp":
+        f = float(rng.randint(10 ** 9, 10 ** 11))
+        out = [FR(f)]
+        for _ in range(n - 1):
+            for _ in range(rng.randint(2, 6)):
+                f = math.nextafter(f, math.inf)
+            out.append(FR(f))
+    else:
+        e = rng.randint(10, 14)
+        out = []
+        for _ in range(n):
+            out.append(FR(2) ** e * FR(8 + rng.randint(0, 7), 8))
+            e += rng.randint(1, 5)
+    assert all(a < b for a, b in zip(out, out[1:])) and all(FR(float(v)) == v for v in out)
+    return out
+
+
 def knots(rng, n, positive=False, mingap=None, kind=None):
-    kind = kind or rng.choice(["dy", "dy", "dec", "any"])
+    kind = kind or rng.choice(["dy", "dy", "dec", "any", "hz", "ulp", "log"] if mingap is None else ["dy", "dy", "dec", "any", "hz"])
+    if kind in ("hz", "ulp", "log"):
+        return dense_knots(rng, n, kind)
     x = FR(rng.randint(0, 40), 8) if positive else FR(rng.randint(-80, 80), 8)
     if positive and rng.random() < 0.7:
         x += FR(1, 2)
@@ -107,6 +139,11 @@ def yvals(rng, xs):
         else:
             v = out[-1] if out and rng.random() < 0.6 else (dbl(rng, "dy"), dbl(rng, "dy"))
         out.append(v)
+    if rng.random() < 0.3:
+        # values of another scale (2^-20 .. 2^40, about 1e-6 .. 1e12): exact, and the real parts stay above the
+        # 2^-29 below which binary64 no longer absorbs the EPS of `d[i] = yp[i] + EPS` (RfiModel.add_eps)
+        k = FR(2) ** rng.randint(-20, 40)
+        out = [(FR(float(a * k)), FR(float(b * k))) for a, b in out]
     return out
 
 
@@ -415,7 +452,9 @@ def cmp_rfi_values(case, cvals, exp, stats):
             continue
         stats["interp"] += 1
         loose = FR(max(1.0, amp / AMP_MAX))
-        if not (abs(cv[0] - mv[0]) <= TOL * loose * max(abs(mv[0]), scale) and abs(cv[1] - mv[1]) <= TOL * loose * max(abs(mv[1]), scale)):
+        # (+ the library's own absolute threshold 10 * EPS: on a wide grid `yp + EPS` with (nearly) all-zero data leaves
+        # 1e-41 where the model has 0, and values of 1e-16 carry an absolute error of 1e-25)
+        if not (abs(cv[0] - mv[0]) <= TOL * loose * max(abs(mv[0]), scale) + ABS_EPS and abs(cv[1] - mv[1]) <= TOL * loose * max(abs(mv[1]), scale) + ABS_EPS):
             return "query %d (x = %s): C %s vs model %s (cond %.2e)" % (i, float(q), fl2(cv), fl2(mv), cond)
     return None
 
@@ -478,10 +517,22 @@ def gen_rfi_cases(rng, count, max_m):
         xp = knots(rng, n)
         yp = yvals(rng, xp)
         hint = rng.choice([rng.randint(-3, n + 3), rng.randint(0, max(0, n - 1)), -2 ** 31, 2 ** 31 - 1])
-        if rng.random() < 0.5:
+        if i % 8 == 7:
+            # tiny values (2^-40 .. 2^-21, about 1e-12 .. 1e-6): every knot, in random order; between the knots the
+            # EPS of `d[i] = yp[i] + EPS` is no longer absorbed by binary64 and the exact model does not apply
+            k = FR(2) ** rng.randint(-40, -21)
+            yp = [(FR(rng.randint(1, 256) * rng.choice((-1, 1)), 64) * k, FR(rng.randint(-256, 256), 64) * k) for _ in xp]
+            qs = list(xp)
+            rng.shuffle(qs)
+            out.append(Case("run", xp=xp, yp=yp, m=m, hint=hint, qs=qs))
+        elif rng.random() < 0.5:
             out.append(Case("rfi", xp=xp, yp=yp, m=m, hint=hint, qs=queries(rng, xp, 1)))
         else:
-            out.append(Case("run", xp=xp, yp=yp, m=m, hint=hint, qs=queries(rng, xp, rng.randint(2, 6))))
+            qs = queries(rng, xp, rng.randint(2, 6))
+            if rng.random() < 0.3:
+                qs += list(xp)                      # every knot
+                rng.shuffle(qs)
+            out.append(Case("run", xp=xp, yp=yp, m=m, hint=hint, qs=qs))
     return out
 
 
